@@ -74,8 +74,9 @@ type ObsSpec struct {
 	With       []int `json:"with,omitempty"`
 	Without    []int `json:"without,omitempty"`
 	Exclusive  bool  `json:"excl,omitempty"`
-	UnregP1    int   `json:"unreg,omitempty"` // 1 + index of the observer to unregister from inside the callback (0 = none)
-	Order      int   `json:"order,omitempty"` // order and splitting of the builder calls (For / With / Without / Exclusive)
+	UnregP1    int   `json:"unreg,omitempty"`   // 1 + index of the observer to unregister from inside the callback (0 = none)
+	Order      int   `json:"order,omitempty"`   // order and splitting of the builder calls (For / With / Without / Exclusive)
+	Reenter    bool  `json:"reenter,omitempty"` // the callback changes the world itself when it runs unlocked (net effect: none)
 	Registered bool  `json:"-"`
 	Dead       bool  `json:"-"` // removed by Reset
 }
